@@ -538,6 +538,27 @@ def geometry_export(tier, seed):
                 continue
             for clause, detail in check_output(orc, cfg, n):
                 findings.append((clause, cfg, mesh["name"], detail))
+    # faces with an edge spanning EXACTLY 180 degrees of longitude (values exactly representable, so no rounding is involved): they
+    # count as crossing ("at least 180 degrees")
+    exact = mg.mk("edge_spanning_exactly_180", [-180.0, -90.0, 0.0, -90.0, 90.0, 0.0, 10.0, 20.0, 20.0, 10.0],
+                  [60.0, 70.0, 60.0, 10.0, 10.0, 40.0, 0.0, 0.0, 10.0, 10.0], [[0, 1, 2], [3, 4, 5], [6, 7, 8, 9]])
+    cases += 3
+    distinct.add(("edge_spanning_exactly_180", "am"))
+    try:
+        got = sorted(int(i) for i in np.asarray(grid_of(exact).antimeridian_face_indices).ravel())
+        if got != [0, 1]:
+            fail("antimeridian_set:Grid.antimeridian_face_indices:edge_spanning_exactly_180",
+                 "a face with an edge spanning exactly 180 degrees of longitude is not among antimeridian_face_indices",
+                 "antimeridian faces == faces with an edge spanning >= 180 deg", {"mesh": exact["name"], "lon": exact["lon"].tolist()}, got, [0, 1])
+        g, da = make(exact)
+        npc = len(g.to_polycollection(periodic_elements="exclude").get_paths())
+        ngdf = len(g.to_geodataframe(periodic_elements="exclude", engine="geopandas"))
+        if npc != 1 or ngdf != 1:
+            fail("count:exclude:edge_spanning_exactly_180", "'exclude' keeps a face with an edge spanning exactly 180 degrees of longitude",
+                 "faces crossing the antimeridian are dropped ('exclude')", {"mesh": exact["name"]}, [npc, ngdf], [1, 1])
+    except Exception as e:  # noqa: BLE001
+        fail(f"exception:{type(e).__name__}:edge_spanning_exactly_180", f"conversion of a grid with an edge spanning exactly 180 degrees raises {type(e).__name__}: {e}"[:200],
+             "a conversion yields geometry", {"mesh": exact["name"]})
     for exc, d in sorted(pc_exc.items()):
         fail(f"exception:{exc}:projection=PlateCarree",
              f"{', '.join(sorted(d['sites']))} with projection=cartopy.crs.PlateCarree() raise {exc}: {d['msg']}",
